@@ -74,6 +74,11 @@ def handle (cmd : String) (args : List Int) : Option String :=
         let c ← float; let δ ← float; let Z ← fpairs; let FE ← rows; let N ← nats; let f ← ints
         pure (c, δ, Z, FE, N, f)) args
       pure (encBool (decide (CrossSpec c δ Z FE N faces)))
+  | "C09.latexact" => do
+      let (c, Z, FE, N, faces) ← run (do
+        let c ← float; let Z ← fpairs; let FE ← rows; let N ← nats; let f ← ints
+        pure (c, Z, FE, N, f)) args
+      pure (encBool (decide (CrossExact c Z FE N faces)))
   | "C09.box" => do
       let (b, lon, lat) ← run (do
         let a ← float; let b ← float; let c ← float; let d ← float
